@@ -164,7 +164,7 @@ func r111(c *Ctx) {
 			// must be a legacy fix-up: guarded by len(new)==0 and a legacy field being set, value derived from the legacy field
 			var newEmpty, legacySet bool
 			for _, ce := range dominatingConds(st.Block()) {
-				cm, ok := asCmp(ce.cond, ce.taken)
+				cm, ok := ce.asCmp()
 				if !ok {
 					continue
 				}
@@ -378,7 +378,7 @@ func r114(c *Ctx) {
 // onlyErrNilGuards: the instruction is conditional on nothing but earlier calls having returned a nil error.
 func onlyErrNilGuards(in ssa.Instruction) bool {
 	for _, ce := range dominatingConds(in.Block()) {
-		cm, ok := asCmp(ce.cond, ce.taken)
+		cm, ok := ce.asCmp()
 		if !ok || cm.op != token.EQL {
 			return false
 		}
